@@ -62,7 +62,17 @@ func VerifC07Controller() {
 		}
 		matches[k] = verifrt.Bool("os" + strconv.Itoa(k) + ".carriesCurrentHash")
 	}
-	c.OnList = func(list client.ObjectList, _ *client.ListOptions) error {
+	c.OnList = func(list client.ObjectList, lo *client.ListOptions) error {
+		if l, ok := list.(*corev1alpha1.ObjectSetList); ok && lo.Namespace != ns {
+			// the same package installed under the same name in another namespace: its ObjectSets carry the same labels
+			// (and the same template hash) and must never be taken for this deployment's
+			foreign := corev1alpha1.ObjectSet{}
+			foreign.Name, foreign.Namespace = "foreign", "other"
+			foreign.Annotations = map[string]string{ObjectSetHashAnnotation: hash}
+			foreign.Status.Revision = 99
+			foreign.Spec.ObjectSetTemplateSpec = vTemplateSpec("A")
+			l.Items = append(l.Items, foreign)
+		}
 		for k := 0; k < n; k++ {
 			name := "os" + strconv.Itoa(k)
 			ann := map[string]string{}
